@@ -883,6 +883,8 @@ class Flow:
                     self.ev(part, fr)
         if isinstance(v, _Cell):
             v = v.find()
+        if isinstance(v, Mark) and is_slice and n.slice.lower is None and n.slice.upper is None and n.slice.step is None:
+            return v if not v.dirty else TOP        # x[:] is a copy of the same sequence
         if isinstance(v, Map):
             return v.at(k)
         if isinstance(v, Seq):
